@@ -393,6 +393,47 @@ NOT_YET = {}
 
 ALL = [f"C{i:02d}" for i in range(1, 30)]
 
+ENGINES = [
+    {"name": "FortranSem", "path": "spec/FortranSem.tla",
+     "serves_properties": ["C01", "C05", "C06", "C07", "C08", "C09", "C11", "C12", "C13", "C19",
+                           "C20", "C25", "C28"],
+     "kind_free_text": ("TLA+ operational semantics of the PSyIR/Fortran subset (recursive evaluator over JSON "
+                        "programs) with drivers SemEquiv, SemAccess, SemRegion, SemOmp, SemRoundTrip, SemAdjoint, "
+                        "LFRicBuiltins, Trace_GOceanRegion; anchored to gfortran by bin/verif selftest")},
+    {"name": "PSyIRTree", "path": "spec/PSyIRTree.tla", "serves_properties": ["C14"],
+     "kind_free_text": "state machine of child-list edits + Trace_PSyIRTree trace validation"},
+    {"name": "SymTab", "path": "spec/SymTab.tla", "serves_properties": ["C16"],
+     "kind_free_text": "state machine of symbol-table operations + Trace_SymTab"},
+    {"name": "TreeCopy", "path": "spec/TreeCopy.tla", "serves_properties": ["C15"],
+     "kind_free_text": "copy/edit model + Trace_TreeCopy"},
+    {"name": "TransTxn", "path": "spec/TransTxn.tla", "serves_properties": ["C26"],
+     "kind_free_text": "transaction discipline of transformations + Trace_TransTxn"},
+    {"name": "FortranExpr", "path": "spec/FortranExpr.tla", "serves_properties": ["C02", "C17"],
+     "kind_free_text": "F2008 expression grammar (Parse/Unparse) and Fortran integer evaluation + ExprTrace/ExprTraceInt"},
+    {"name": "FreeForm", "path": "spec/FreeForm.tla", "serves_properties": ["C18"],
+     "kind_free_text": "free-form source form (Join, Tokens, reference wrapper) + Trace_FreeForm"},
+    {"name": "RoundTrip", "path": "spec/RoundTrip.tla", "serves_properties": ["C03"],
+     "kind_free_text": "program skeleton stability + Trace_RoundTrip"},
+    {"name": "DeclOrder", "path": "spec/DeclOrder.tla", "serves_properties": ["C04"],
+     "kind_free_text": "declaration/use/reference events + Trace_DeclOrder"},
+    {"name": "DirectiveTree", "path": "spec/DirectiveTree.tla", "serves_properties": ["C10"],
+     "kind_free_text": "OpenMP/OpenACC directive trees, transformation alphabet, Valid + Trace_DirectiveTree"},
+    {"name": "LFRicHalo", "path": "spec/LFRicHalo.tla", "serves_properties": ["C22"],
+     "kind_free_text": "run-time halo model + Trace_LFRicHalo"},
+    {"name": "LFRicSched", "path": "spec/LFRicSched.tla", "serves_properties": ["C23"],
+     "kind_free_text": "LFRic schedule state machine and colouring rule + Trace_LFRicSched"},
+    {"name": "LFRicArgOrder", "path": "spec/LFRicArgOrder.tla", "serves_properties": ["C21"],
+     "kind_free_text": "documented kernel-argument ordering rules and metadata generator + Trace_LFRicArgOrder"},
+    {"name": "InvokeBinding", "path": "spec/InvokeBinding.tla", "serves_properties": ["C24"],
+     "kind_free_text": "algorithm/PSy-layer argument binding + Trace_InvokeBinding"},
+    {"name": "GOceanRegion", "path": "spec/GOceanRegion.tla", "serves_properties": ["C25"],
+     "kind_free_text": "GOcean iteration regions and case generator + Trace_GOceanRegion"},
+    {"name": "ModuleSort", "path": "spec/ModuleSort.tla", "serves_properties": ["C27"],
+     "kind_free_text": "dependency sort as Pick behaviours + Trace_ModuleSort"},
+    {"name": "KernelOutput", "path": "spec/KernelOutput.tla", "serves_properties": ["C29"],
+     "kind_free_text": "concurrent kernel-output protocol, one action per file-system call + Trace_KernelOutput"},
+]
+
 
 def build():
     checks = []
@@ -425,7 +466,7 @@ def build():
                   "baseline_off_cmd": BASELINE_CMD,
                   "source_commits": [],
                   "add_only": True},
-        "engines": [],
+        "engines": ENGINES,
         "checks": checks,
         "notes": "All checks: bin/verif check <id> --tier quick|thorough; exit 0/1/2 as in DESIGN.md 1.2.",
         "not_applicable": na,
